@@ -226,7 +226,20 @@ def run(spec):
         if spec["family"] == "hamiltonian":
             if kind != "soft":
                 continue
-        if spec["family"] == "grand" and i % 2 == 0:
+        if spec["family"] == "grand" and i % 3 == 1:
+            # number-conserving swap: a plain composite (built with +) whose first exchange move always deletes and whose
+            # second always inserts (this order works on the pinned code); species differ, so a rejected swap restores
+            # the composition without changing the atom count
+            if s["atoms"]["kind"] in ("gas", "mixed") and kind == "soft":
+                s["atoms"]["kind"] = "mixed"
+                s["atoms"]["n"] = max(3, s["atoms"].get("n", 3))
+            s["T"] = 3000.0
+            s["cycles"] = 2
+            s["table"] = [
+                {"name": "swap", "move": {"t": "+", "parts": [{"t": "D", "op": {"t": "Ball", "step": 0.2}}, {"t": "E", "bias": 0.0}, {"t": "E", "bias": 1.0}]}, "criteria": "grand"},
+                {"name": "d", "move": {"t": "D", "op": {"t": "Ball", "step": 0.3}}},
+            ]
+        if spec["family"] == "grand" and i % 3 == 0:
             # exchange and displacement trials, both judged by the shipped criteria, with a chemical potential
             # that makes insertions and deletions about equally likely (so accepted and reverted exchanges alternate)
             import math
